@@ -102,6 +102,27 @@ func grammar(c *ev.Ctx) {
 	for _, b := range gTypeBodies() {
 		eval("type", b)
 	}
+	// runs of bytes that are not valid UTF-8 inside strings (decoding replaces each
+	// by U+FFFD, which is longer): 1..12 repetitions of four malformed units, in
+	// every role that unquotes strings
+	for _, unit := range []string{"\xff", "\xc3", "\xe2\x82", "\xf0\x9f\x98"} {
+		for k := 1; k <= 12; k++ {
+			bad := strings.Repeat(unit, k)
+			q := "\"" + bad + "\""
+			eval("schema", q)
+			eval("schema", "{\n  "+q+": 1\n}")
+			eval("schema", "{\n  \"k\": "+q+" // {const: true}\n}")
+			eval("schema", "\"x\" // {enum: ["+q+", \"x\"]}")
+			eval("schema", "\"x\" // {regex: "+q+"}")
+			eval("type", q+" // {minLength: 1}")
+			eval("enum", "["+q+"]")
+			eval("enum", "[1, "+q+", "+q+"]")
+			eval("regex", "/"+bad+"/")
+			eval("document", q)
+			eval("document", "{"+q+":"+q+"}")
+			eval("document", "{\"a\":"+q+"}")
+		}
+	}
 	// enum rule and regex type bodies with unterminated / nested comment and literal tails
 	tails := []string{"", " ", "\n", " #", " # c", " /", " /*", " /* abc", " /* abc *", " /* abc */", " /* abc */ x", " //", " // c", "\n]", " ,", "#", "/*", "//"}
 	for _, body := range []string{"[1]", "[\n  1\n]", "[1, \"a\"]", "[]", "[1,]", "[", "[1", "[\"a", "[1 # c\n]", "[1 /* c */]", "[1 /* c ]", "[1 // c\n]"} {
